@@ -301,17 +301,17 @@ def make_items(chk, ctx, only=None):
             continue
         space = list(chk.space(name, body))
         items[name] = {'name': name, 'body': body, 'path': os.path.join(DATA, chk.FIXTURE_KIND, name), 'space': space}
-        # the intact fixture must go through every command cleanly
-        for cmd in chk.commands(name):
-            r = execute(chk, ctx, items[name], {'cmd': cmd, 'fault': None})
-            if r.verdict:
-                raise C.InfraError('%s: the intact fixture %s already fails under %s: %s' % (chk.PROP, name, cmd, r.verdict))
-            items[name].setdefault('intact', {})[cmd] = r.outcome
+    # the intact fixtures are points of the space too (fault None, first in the plan list): a tool that dies on a committed,
+    # valid file violates the property as much as one that dies on a damaged one
     return items
 
 
 def make_plans(chk, ctx, tier, items):
     allp = []
+    for name in sorted(items):
+        for cmd in chk.commands(name):
+            allp.append((name, cmd, None))
+    n_intact = len(allp)
     for name in sorted(items):
         for fi, f in enumerate(items[name]['space']):
             for cmd in chk.commands(name):
@@ -330,21 +330,26 @@ def make_plans(chk, ctx, tier, items):
             cum, tot = [], 0
             wcache = {}
             for (name, cmd, f) in allp:
+                if f is None:
+                    tot += 1
+                    cum.append(tot)
+                    continue
                 k = (name, f[0], f[1])
                 if k not in wcache:
                     wcache[k] = max(1, int(wfn(name, items[name]['body'], f)))
                 tot += wcache[k]
                 cum.append(tot)
             import bisect
-            idx = sorted(set(bisect.bisect_right(cum, rng.below(tot)) for _ in range(n)))
+            idx = sorted(set(bisect.bisect_right(cum, rng.below(tot)) for _ in range(n)) | set(range(n_intact)))
         else:
-            idx = sorted(set(rng.below(len(allp)) for _ in range(n)))
+            idx = sorted(set(rng.below(len(allp)) for _ in range(n)) | set(range(n_intact)))
         sel = [allp[i] for i in idx]
     plans = []
     for j, (name, cmd, f) in enumerate(sel):
-        p = {'cmd': cmd, 'fault': list(f)}
-        if chk.LEGAL_READS and cmd in chk.LEGAL_READS and j % 5 == 0:
-            rng = C.Prng(C.mix_seed(ctx.seed, chk.NUM, 1, j))
+        p = {'cmd': cmd, 'fault': list(f) if f is not None else None}
+        jj = j - n_intact          # position among the fault points (the intact points come first)
+        if f is not None and chk.LEGAL_READS and cmd in chk.LEGAL_READS and jj % 5 == 0:
+            rng = C.Prng(C.mix_seed(ctx.seed, chk.NUM, 1, jj))
             p['short_reads'] = [[rng.below(4), rng.range(1, 700)] for _ in range(rng.range(1, 3))]
         plans.append({'item': name, 'params': p})
     return plans
